@@ -137,6 +137,20 @@ CLAIMED = {
         "technique": "guard-dominance dataflow over typed HIR with callee summaries (refusing branches, value identity)",
         "design_ref": "DESIGN.md §3 R-GUARD/R-FORMS, §4 C06",
     },
+    "C16": {
+        "text": "Decides the provenance clauses of the randomness property: the entropy source is real and never cached "
+                "(factory draws from OS entropy, HeContext builds it with new(), from_seed/set_seed have no library "
+                "caller, no generator stored in a field or static), the no-generator entry points create their generator "
+                "inside the call, every secret sampler is fed by an entropy or caller-supplied generator; with an explicit "
+                "generator the stored seed and mask derive from it only; nothing nondeterministic is reachable from the "
+                "generator's stream and refill hashes exactly (seed, counter); ternary / binomial samples are drawn once "
+                "per coefficient outside the RNS-component loop; the seed is stored and expanded at the same address and "
+                "length through from_seed -> uniform.",
+        "note": _TB + "Not decided: independence of the stream from read chunking, non-repetition, difference between "
+                "seeds, distribution shape, the bound 21.",
+        "technique": "generator-kind provenance dataflow + who-may-call + loop-nesting of draw sites + address agreement",
+        "design_ref": "DESIGN.md §3 R-RNGPROV, §4 C16",
+    },
     "C17": {
         "text": "Decides deadlock freedom and the structural conditions of the standard linearizability argument for "
                 "the three lock-protected caches (discovered from the type facts): no lock is re-acquired while one of "
@@ -180,7 +194,6 @@ NOT_APPLICABLE = {
     "C07": "every clause compares a reported integer with exact big-integer arithmetic on runtime phase/noise "
            "values; no necessary condition is visible in the shape of the code (DESIGN.md §5)",
     "C09": _NYB, "C10": _NYB,
-    "C16": _NYB,
     "C19": "every clause is about where coefficients land as a function of runtime indices and counts; static "
            "shape rules do not bound them (DESIGN.md §5)",
 }
